@@ -31,7 +31,7 @@ def bounds(nobjs, sols):
 def check_density(ctx, arch, inp, where="core.AdaptiveGridArchive.add"):
     """the occupancy it reports for every cell == number of members lying in that cell of its current grid"""
     cnt = {}
-    for m in arch._contents:
+    for m in list(arch):
         c = call(arch.find_index, m)
         cnt[c] = cnt.get(c, 0) + 1
     if -1 in cnt or any(isinstance(k, str) for k in cnt):
@@ -87,10 +87,10 @@ def run_history(ctx, ask, rng, exhaustive_objs=None, cfg=None):
     ok = True
     nrej = nevict = nover = 0
     for step, s in enumerate(sols):
-        before = list(arch._contents)
+        before = list(arch)
         old_bounds = (list(arch.minimum), list(arch.maximum))
         r = call(arch.add, s)
-        after = list(arch._contents)
+        after = list(arch)
         hin = dict(inp, upto=step)
         if isinstance(r, str):
             ctx.fail("add-raises", hin, r, "True/False", "core.AdaptiveGridArchive.add"); ok = False; break
